@@ -1033,16 +1033,29 @@ fn coded_body_cut_cases() -> Vec<(String, Option<(String, String)>)> {
         e.finish().unwrap()
     };
     let mut cells: Vec<(String, Vec<u8>)> = Vec::new();
-    for (coding, stream) in [("gzip", &gz), ("deflate", &zl)] {
+    let plain = payload.clone();
+    for (coding, stream) in [("gzip", &gz), ("deflate", &zl), ("identity", &plain)] {
         for framing in ["close", "length", "chunked"] {
-            for (cut_name, cut) in [("between-head-and-body", 0usize), ("inside-coding-header", 5), ("inside-data", stream.len() / 2)] {
+            // (identity under chunked framing: also a stall behind the last-chunk line, before the final CRLF)
+            for (cut_name, cut) in [("between-head-and-body", 0usize), ("inside-coding-header", 5), ("inside-data", stream.len() / 2), ("behind-last-chunk-line", usize::MAX)] {
+                if cut == usize::MAX && framing != "chunked" {
+                    continue;
+                }
+                if framing == "close" && coding == "identity" {
+                    continue; // nothing marks the end of such a body but the close: covered by the retrying-caller cells
+                }
                 let mut wire = format!("HTTP/1.1 200 OK\r\nContent-Encoding: {coding}\r\n").into_bytes();
                 match framing {
                     "length" => wire.extend_from_slice(format!("Content-Length: {}\r\n\r\n", stream.len()).as_bytes()),
                     "chunked" => wire.extend_from_slice(format!("Transfer-Encoding: chunked\r\n\r\n{:x}\r\n", stream.len()).as_bytes()),
                     _ => wire.extend_from_slice(b"\r\n"),
                 }
-                wire.extend_from_slice(&stream[..cut]);
+                if cut == usize::MAX {
+                    wire.extend_from_slice(stream);
+                    wire.extend_from_slice(b"\r\n0\r\n");
+                } else {
+                    wire.extend_from_slice(&stream[..cut]);
+                }
                 cells.push((format!("coded-body-cut:{coding}:{framing}:{cut_name}"), wire));
             }
         }
@@ -1196,11 +1209,24 @@ fn fd_exhaustion_cells() -> Vec<(String, Option<(String, String)>)> {
 // every other one, whatever the (larger) connect timeout, for an address literal, a name with one
 // address, a name with several, a proxy, and the target of a redirect.
 //
-pub const CONNECT_STALL_KINDS: [&str; 6] = ["ip-literal", "one-address-name", "two-address-name", "six-address-name", "proxy", "redirect-target"];
+pub const CONNECT_STALL_KINDS: [&str; 9] = [
+    "ip-literal",
+    "one-address-name",
+    "two-address-name",
+    "six-address-name",
+    "proxy",
+    "redirect-target",
+    // both set, the connect timeout the shorter one (300 ms under T = 5 s): the attempt ends after the connect timeout
+    "ct-under-deadline:ip-literal",
+    "ct-under-deadline:one-address-name",
+    "ct-under-deadline:two-address-name",
+];
 
 fn connect_stall_cases() -> Vec<(String, Option<(String, String)>, bool)> {
     let run = |kind: &'static str| -> (String, Option<(String, String)>, bool) {
         let name = format!("connect-stall:{kind}");
+        let under = kind.starts_with("ct-under-deadline:");
+        let kind = kind.trim_start_matches("ct-under-deadline:");
         let hole = match crate::c17::black_hole(false) {
             Some(h) => h,
             None => return (name, None, false),
@@ -1219,8 +1245,9 @@ fn connect_stall_cases() -> Vec<(String, Option<(String, String)>, bool)> {
                 None => return (name, None, false),
             }
         }
-        const T_MS: u64 = 700;
-        let base = |url: &str| attohttpc::get(url).timeout(Duration::from_millis(T_MS)).connect_timeout(Duration::from_secs(5)).read_timeout(Duration::from_secs(5));
+        #[allow(non_snake_case)]
+        let (T_MS, ct_ms): (u64, u64) = if under { (5000, 300) } else { (700, 5000) };
+        let base = |url: &str| attohttpc::get(url).timeout(Duration::from_millis(T_MS)).connect_timeout(Duration::from_millis(ct_ms)).read_timeout(Duration::from_secs(5));
         let mut server = None;
         let rb = match kind {
             "ip-literal" => base(&format!("http://{}/x", hole.addr)),
@@ -1264,8 +1291,13 @@ fn connect_stall_cases() -> Vec<(String, Option<(String, String)>, bool)> {
             let _ = h.join();
         }
         let shown: String = format!("{res:?}").chars().take(120).collect();
-        let viol = if el > Duration::from_millis(T_MS + 600) {
-            Some(("phase-not-bounded:connect".to_string(), format!("{kind}: the address never answers the connection attempt; T = {T_MS} ms, connect timeout 5 s: send() returned {shown} after {el:?}")))
+        // attempts start 200 ms apart; each ends at the deadline or after its connect timeout, whichever is first
+        let bound = if under { ct_ms + 200 * n_more as u64 + 600 } else { T_MS + 600 };
+        let viol = if el > Duration::from_millis(bound) {
+            Some((
+                if under { "connect-timeout-not-honoured-under-deadline".to_string() } else { "phase-not-bounded:connect".to_string() },
+                format!("{kind}: the address never answers the connection attempt; T = {T_MS} ms, connect timeout {ct_ms} ms: send() returned {shown} after {el:?} (bound {bound} ms)"),
+            ))
         } else if !matches!(res, Ok(Err(_))) {
             Some(("phase-not-bounded:connect".to_string(), format!("{kind}: send() = {shown} against an address that never answers")))
         } else {
